@@ -70,8 +70,8 @@ CLAIMED.update({
     "C11": ("Proof of the per-function facts that make provenance survive a restart: an IP for an existing file loads its record from exactly the side-car path (<path>.audit.json) that WriteAuditLogToFile writes the IP's record to; a cached record is never reloaded; UnmarshalAuditInfoJSONFile reads the named file, decodes the bytes read into the record it returns, and treats an unreadable or undecodable file as fatal (only an absent file yields an empty record); writeAuditLogs links every input's own (loaded) record under the input's path; and a structural check that every field of AuditInfo, recursively, survives encoding/json (exported, no '-' tag, no interface/func/chan, no colliding names).",
             "Assumed: encoding/json round-trips a value of a type that passes the structural check (Unmarshal(Marshal(x)) == x; the library is not verified); the file system keeps the side-car files between runs; the modifies clause of UnmarshalAuditInfoJSONFile (it fills only the record it allocates) is assumed because json.Unmarshal works by reflection. The comparison of whole lineages across different run histories is a paper argument from these facts (induction over the DAG), not an obligation.",
             "3/C11"),
-    "C19": ("Proof, for every stream length and every receive/send schedule of the component's own go-routine, of the source and selector components: ParamSource, FileSource, FileGlobber (all patterns, after its dependency stream ended), FileToParamsReader and CommandToParams put exactly the given / matching / read items on their out-port log, once each, in order (loop invariants over the port's send log); IPSelectorSync reads one item per in-port in lock step, passes on only complete aligned tuples, and sends a tuple's members (each on the out-port named like its in-port) only if every member satisfies the predicate.",
-            "NOT decided here: the Cartesian product of FileCombinator / ParamCombinator (recursive combine: nonlinear index arithmetic, not attempted), FileSplitter and Concatenator (file contents: bufio/os, outside the model), that IPSelectorSync sends every member of a passing tuple (only 'nothing else is sent' is proved). Assumed: the scanner abstraction of bufio.Scanner (a fixed sequence of lines), filepath.Glob as a function of pattern and file-system epoch, the selection predicate is a function of the IP, every in-port name of the selector has an out-port of the same name, closing the out-ports sends nothing (CloseAllOutPorts, trusted).",
+    "C19": ("Proof, for every stream length and every receive/send schedule of the component's own go-routine: ParamSource, FileSource, FileGlobber (all patterns, after its dependency stream ended), FileToParamsReader and CommandToParams put exactly the given / matching / read items on their out-port log, once each, in order; IPSelectorSync reads one item per in-port in lock step, considers every aligned tuple, and sends a tuple's members (each on the out-port named like its in-port) only if every member satisfies the predicate; FileSplitter writes every line read exactly once, in order, to the current part, closes/finalizes/sends a part when it holds LinesPerSplit lines and never more, numbers parts consecutively and finalizes a part before sending it; Concatenator appends the content of every arriving file, then a newline, to the file of its group and sends the outputs only after the input stream ended; ParamCombinator/FileCombinator read every in-port until it is closed, pass every port to combine, and send each resulting row in order on the out-port of its name. The Cartesian product itself (recursive combine) is NOT proved: a BOUNDED stand-in runs the real combine functions exhaustively for up to 3 ports x 3 items (420 inputs each) on every run; it is reported as BOUNDED and not counted among the discharged obligations.",
+            "Bounded, not proved: combine (see above). Assumed: the result of combine has only input keys and only valid items (assumed clauses of the trusted combine contracts), the scanner abstraction of bufio.Scanner, the write-log abstraction of os.File (WriteString/Write append to a log per file), filepath.Glob / ioutil.ReadFile as functions of their argument and the file-system epoch, the selection predicate is a function of the IP, every in-port name of selector/combinators has an out-port of the same name, closing the out-ports sends nothing (CloseAllOutPorts, trusted), a new group IP of the Concatenator has a record (assumecall). Not decided: that IPSelectorSync sends EVERY member of a passing tuple; byte-level content of the files on disk (kernel).",
             "3/C19"),
 })
 
